@@ -13,7 +13,7 @@ Definition qabs (a : Qc) : Qc := if Qclt_le_dec a 0 then - a else a.
 Definition qenv : env :=
   mkEnv Qc 0 1 (Q2Qc (1 # 2)) Qcplus Qcminus Qcmult Qcdiv qabs qltb (fun a b => negb (qltb b a))
         0 (Q2Qc 10) (Q2Qc 100) 0 (Q2Qc (-1000)) (Q2Qc 1000)
-        (fun k => Some k) (fun _ => 0) (fun _ _ => Some []) (fun j _ _ _ _ => j).
+        (fun k => Some k) (fun _ => 0) (fun _ _ => Some []) (fun j _ _ _ _ => j) (fun x => x).
 
 Lemma qltb_true a b : qltb a b = true <-> a < b.
 Proof.
